@@ -35,6 +35,26 @@
 #include <fcppt/output_to_std_wstring.hpp>
 #include <fcppt/output_to_string.hpp>
 #include <fcppt/io/read.hpp>
+#include <fcppt/io/read_chars.hpp>
+#include <fcppt/io/write_chars.hpp>
+#include <fcppt/io/optional_buffer.hpp>
+#include <fcppt/io/buffer.hpp>
+#include <fcppt/io/get.hpp>
+#include <fcppt/io/peek.hpp>
+#include <fcppt/io/extract.hpp>
+#include <fcppt/io/expect.hpp>
+#include <fcppt/from_std_string.hpp>
+#include <fcppt/to_std_string.hpp>
+#include <fcppt/output_to_fcppt_string.hpp>
+#include <fcppt/output_to_string_locale.hpp>
+#include <fcppt/output_to_std_string_locale.hpp>
+#include <fcppt/string_literal.hpp>
+#include <fcppt/char_literal.hpp>
+#include <fcppt/enum/array.hpp>
+#include <fcppt/enum/array_output.hpp>
+#include <fcppt/enum/array_init.hpp>
+#include <fcppt/math/matrix/static.hpp>
+#include <fcppt/math/matrix/output.hpp>
 #include <fcppt/math/dim/input.hpp>
 #include <fcppt/math/dim/output.hpp>
 #include <fcppt/math/dim/static.hpp>
@@ -64,6 +84,8 @@ enum class e1 { test1, test2, test3, fcppt_maximum = test3 };
 enum class e2 { foo, bar, baz, fo, foobar, fcppt_maximum = foobar };
 enum class e3 : unsigned char { a, b, a2, fcppt_maximum = a2 }; // two enumerators share a name
 enum class e4 { only, fcppt_maximum = only };
+// an empty name, a blank inside, an embedded NUL, a leading blank, prefixes of each other
+enum class e5 { empty, blank, nul, lead, x, a, fcppt_maximum = a };
 }
 
 namespace fcppt::enum_
@@ -116,6 +138,23 @@ template <>
 struct to_string_impl<c15::e4>
 {
   static std::string_view get(c15::e4) { return "only"; }
+};
+template <>
+struct to_string_impl<c15::e5>
+{
+  static std::string_view get(c15::e5 const v)
+  {
+    switch (v)
+    {
+    case c15::e5::empty: return "";
+    case c15::e5::blank: return "a b";
+    case c15::e5::nul: return std::string_view{"x\0y", 3};
+    case c15::e5::lead: return " z";
+    case c15::e5::x: return "x";
+    case c15::e5::a: return "a";
+    }
+    return "?";
+  }
 };
 }
 
@@ -228,6 +267,61 @@ std::endian parse_endian(std::string const &s)
   throw bad_op{};
 }
 
+std::string b01(bool const b) { return b ? "1" : "0"; }
+
+// exact-size heap copies behind the views handed to fcppt
+template <typename Ch>
+struct exact
+{
+  explicit exact(std::basic_string<Ch> const &s) : size{s.size()}, buf{new Ch[s.size()]}
+  {
+    for (std::size_t i = 0; i < size; ++i)
+      buf[i] = s[i];
+  }
+  std::basic_string_view<Ch> view() const { return std::basic_string_view<Ch>{buf.get(), size}; }
+  std::size_t size;
+  std::unique_ptr<Ch[]> buf;
+};
+
+std::locale const &utf8()
+{
+  static std::locale const l{"C.utf8"};
+  return l;
+}
+
+std::string whex_of(std::wstring const &s)
+{
+  if (s.empty())
+    return "-";
+  std::string bytes;
+  for (wchar_t const c : s)
+  {
+    std::uint32_t const u{static_cast<std::uint32_t>(c)};
+    bytes += static_cast<char>(u >> 24);
+    bytes += static_cast<char>((u >> 16) & 0xFF);
+    bytes += static_cast<char>((u >> 8) & 0xFF);
+    bytes += static_cast<char>(u & 0xFF);
+  }
+  return hex_of(bytes);
+}
+
+std::wstring parse_whex(std::string const &s)
+{
+  std::string const b{parse_hex(s)};
+  if (b.size() % 4 != 0)
+    throw bad_op{};
+  std::wstring r;
+  for (std::size_t i = 0; i < b.size(); i += 4)
+  {
+    std::uint32_t const u{(static_cast<std::uint32_t>(static_cast<unsigned char>(b[i])) << 24) |
+                          (static_cast<std::uint32_t>(static_cast<unsigned char>(b[i + 1])) << 16) |
+                          (static_cast<std::uint32_t>(static_cast<unsigned char>(b[i + 2])) << 8) |
+                          static_cast<std::uint32_t>(static_cast<unsigned char>(b[i + 3]))};
+    r += static_cast<wchar_t>(u);
+  }
+  return r;
+}
+
 // ------------------------------------------------------------------ binary part
 // T = the arithmetic type handed to fcppt, I = the integer type of its textual form (same for integers,
 // the same-width unsigned for float/double: bit patterns only)
@@ -332,22 +426,212 @@ struct bin
   }
 };
 
+template <typename T, typename I>
+struct ty_tag
+{
+  using type = T;
+  using int_type = I;
+};
+
+// bool: only the two values of the type
+struct bool_guard
+{
+};
+
+template <typename F>
+std::string with_type(std::string const &ty, F const &f)
+{
+  if (ty == "u8") return f(ty_tag<std::uint8_t, std::uint8_t>{});
+  if (ty == "i8") return f(ty_tag<std::int8_t, std::int8_t>{});
+  if (ty == "u16") return f(ty_tag<std::uint16_t, std::uint16_t>{});
+  if (ty == "i16") return f(ty_tag<std::int16_t, std::int16_t>{});
+  if (ty == "u32") return f(ty_tag<std::uint32_t, std::uint32_t>{});
+  if (ty == "i32") return f(ty_tag<std::int32_t, std::int32_t>{});
+  if (ty == "u64") return f(ty_tag<std::uint64_t, std::uint64_t>{});
+  if (ty == "i64") return f(ty_tag<std::int64_t, std::int64_t>{});
+  if (ty == "f32") return f(ty_tag<float, std::uint32_t>{});
+  if (ty == "f64") return f(ty_tag<double, std::uint64_t>{});
+  if (ty == "b1") return f(ty_tag<bool, std::uint8_t>{});
+  if (ty == "ch") return f(ty_tag<char, std::int8_t>{});
+  if (ty == "wc") return f(ty_tag<wchar_t, std::int32_t>{});
+  if (ty == "c8t") return f(ty_tag<char8_t, std::uint8_t>{});
+  if (ty == "c16") return f(ty_tag<char16_t, std::uint16_t>{});
+  if (ty == "c32") return f(ty_tag<char32_t, std::uint32_t>{});
+  if (ty == "ll") return f(ty_tag<long long, std::int64_t>{});
+  if (ty == "ull") return f(ty_tag<unsigned long long, std::uint64_t>{});
+  throw bad_op{};
+}
+
+static_assert(sizeof(wchar_t) == 4 && std::is_signed_v<wchar_t> && std::is_signed_v<char> && sizeof(long long) == 8);
+
+// the values of the textual form that are values of the C++ type
+void check_values(std::vector<std::string> const &t)
+{
+  if (t.size() < 2 || t[1] != "b1")
+    return;
+  if (t[0] == "rd")
+    throw bad_op{}; // arbitrary bytes are not values of bool
+  if (t[0] == "bin" && t.size() == 4 && t[3] != "0" && t[3] != "1")
+    throw bad_op{};
+  if (t[0] == "bins" && t.size() == 5 && !((t[3] == "0" && (t[4] == "1" || t[4] == "2")) || (t[3] == "1" && t[4] == "1")))
+    throw bad_op{};
+  if (t[0] == "seq" && t.size() == 4 && t[3] != "-")
+    for (long long const v : vh::int_list(t[3]))
+      if (v != 0 && v != 1)
+        throw bad_op{};
+}
+
+// long double (x87 extended precision): 10 value bytes in a 16-byte object, the 6 padding bytes are indeterminate
+// in every copy.  Textual form: the unsigned number of the 80 value bits.  NOT generated by the plugin: see
+// notes/C15.md, DEFECT CANDIDATE 4 (swap returns the byte-reversed object by value and loses six value bytes).
+static_assert(sizeof(long double) == 16);
+std::string f80_text(long double const v)
+{
+  unsigned char b[16];
+  std::memcpy(b, &v, 16);
+  unsigned __int128 x = 0;
+  for (int i = 9; i >= 0; --i)
+    x = (x << 8) | b[i];
+  if (x == 0)
+    return "0";
+  std::string r;
+  while (x != 0)
+  {
+    r.insert(r.begin(), static_cast<char>('0' + static_cast<int>(x % 10)));
+    x /= 10;
+  }
+  return r;
+}
+
+std::string f80_line(std::vector<std::string> const &t)
+{
+  if (t[0] != "bin" || t.size() != 4)
+    throw bad_op{};
+  std::endian const e{parse_endian(t[2])};
+  unsigned __int128 x = 0;
+  if (t[3].empty() || t[3].size() > 25)
+    throw bad_op{};
+  for (char const c : t[3])
+  {
+    if (c < '0' || c > '9')
+      throw bad_op{};
+    x = x * 10 + static_cast<unsigned>(c - '0');
+  }
+  if ((x >> 80) != 0)
+    throw bad_op{};
+  unsigned char b[16] = {};
+  for (int i = 0; i < 10; ++i)
+    b[i] = static_cast<unsigned char>((x >> (8 * i)) & 0xFF);
+  long double v;
+  std::memcpy(&v, b, 16);
+  std::stringstream s{std::ios_base::in | std::ios_base::out | std::ios_base::binary};
+  fcppt::io::write(s, v, e);
+  std::string w{s.str()};
+  if (w.size() == 16)
+    for (std::size_t i = 0; i < 6; ++i)
+      w[e == std::endian::native ? 10 + i : i] = '\0'; // padding
+  fcppt::optional::object<long double> const r{fcppt::io::read<long double>(s, e)};
+  fcppt::optional::object<long double> const r2{fcppt::io::read<long double>(s, e)};
+  auto const opt = [](fcppt::optional::object<long double> const &o) { return o.has_value() ? f80_text(o.get_unsafe()) : std::string{"none"}; };
+  // swap itself is byte-order independent and belongs to the non-native case: it is only printed there
+  return "w=" + hex_of(w) + " r=" + opt(r) + " r2=" + opt(r2) +
+         (e == std::endian::native ? std::string{} : " ss=" + f80_text(fcppt::endianness::swap(fcppt::endianness::swap(v)))) +
+         " cc=" + f80_text(fcppt::endianness::convert(fcppt::endianness::convert(v, e), e));
+}
+
 std::string by_type(std::vector<std::string> const &t)
 {
   if (t.size() < 2)
     throw bad_op{};
-  std::string const &ty = t[1];
-  if (ty == "u8") return bin<std::uint8_t, std::uint8_t>::handle(t);
-  if (ty == "i8") return bin<std::int8_t, std::int8_t>::handle(t);
-  if (ty == "u16") return bin<std::uint16_t, std::uint16_t>::handle(t);
-  if (ty == "i16") return bin<std::int16_t, std::int16_t>::handle(t);
-  if (ty == "u32") return bin<std::uint32_t, std::uint32_t>::handle(t);
-  if (ty == "i32") return bin<std::int32_t, std::int32_t>::handle(t);
-  if (ty == "u64") return bin<std::uint64_t, std::uint64_t>::handle(t);
-  if (ty == "i64") return bin<std::int64_t, std::int64_t>::handle(t);
-  if (ty == "f32") return bin<float, std::uint32_t>::handle(t);
-  if (ty == "f64") return bin<double, std::uint64_t>::handle(t);
-  throw bad_op{};
+  if (t[1] == "f80")
+    return f80_line(t);
+  check_values(t);
+  return with_type(t[1], [&t](auto const tag) {
+    using tag_type = decltype(tag);
+    return bin<typename tag_type::type, typename tag_type::int_type>::handle(t);
+  });
+}
+
+// ---- steps on ONE std::stringstream: io::write, io::read, io::write_chars, io::read_chars, peek, clear
+std::vector<std::string> split(std::string const &s, char const sep)
+{
+  std::vector<std::string> r;
+  std::size_t pos = 0;
+  while (true)
+  {
+    std::size_t const next = s.find(sep, pos);
+    r.push_back(s.substr(pos, next == std::string::npos ? next : next - pos));
+    if (next == std::string::npos)
+      break;
+    pos = next + 1;
+  }
+  return r;
+}
+
+std::string bst(std::string const &steps)
+{
+  std::stringstream s{std::ios_base::in | std::ios_base::out | std::ios_base::binary};
+  std::string out;
+  for (std::string const &step : split(steps, ','))
+  {
+    std::vector<std::string> const p{split(step, '.')};
+    std::string o;
+    if (p[0] == "w" && p.size() == 4)
+    {
+      if (p[1] == "b1" && p[3] != "0" && p[3] != "1")
+        throw bad_op{};
+      std::endian const e{parse_endian(p[2])};
+      o = with_type(p[1], [&](auto const tag) {
+        using tag_type = decltype(tag);
+        fcppt::io::write(s, bin<typename tag_type::type, typename tag_type::int_type>::from_text(p[3]), e);
+        return std::string{"w"};
+      });
+    }
+    else if (p[0] == "r" && p.size() == 3)
+    {
+      if (p[1] == "b1")
+        throw bad_op{};
+      std::endian const e{parse_endian(p[2])};
+      o = with_type(p[1], [&](auto const tag) {
+        using tag_type = decltype(tag);
+        using b = bin<typename tag_type::type, typename tag_type::int_type>;
+        return "r=" + b::opt(fcppt::io::read<typename tag_type::type>(s, e));
+      });
+    }
+    else if (p[0] == "wc" && p.size() == 2)
+    {
+      exact<char> const data{parse_hex(p[1])};
+      o = "wc=" + b01(fcppt::io::write_chars(s, data.buf.get(), data.size));
+    }
+    else if (p[0] == "rc" && p.size() == 2)
+    {
+      unsigned long long const n{parse_int<unsigned long long>(p[1])};
+      if (n > 64)
+        throw bad_op{};
+      fcppt::io::optional_buffer const r{fcppt::io::read_chars(s, static_cast<std::size_t>(n))};
+      o = "rc=" + (r.has_value() ? hex_of(std::string(r.get_unsafe().begin(), r.get_unsafe().end())) : std::string{"none"});
+    }
+    else if (p[0] == "p" && p.size() == 1)
+    {
+      fcppt::optional::object<char> const r{fcppt::io::peek(s)};
+      o = "p=" + (r.has_value() ? std::to_string(static_cast<unsigned>(static_cast<unsigned char>(r.get_unsafe()))) : std::string{"none"});
+    }
+    else if (p[0] == "c" && p.size() == 1)
+    {
+      s.clear();
+      o = "c";
+    }
+    else
+      throw bad_op{};
+    if (!out.empty())
+      out += ';';
+    out += o + " e" + b01(s.eof()) + "f" + b01(s.fail());
+  }
+  s.clear();
+  std::string rest;
+  for (int c = s.get(); c != std::char_traits<char>::eof() && rest.size() < 4096; c = s.get())
+    rest += static_cast<char>(c);
+  return out + "|rest=" + hex_of(rest);
 }
 
 std::string revmem(std::string const &bytes)
@@ -361,7 +645,6 @@ std::string revmem(std::string const &bytes)
 }
 
 // ------------------------------------------------------------------ textual part
-std::string b01(bool const b) { return b ? "1" : "0"; }
 
 std::wstring widen_bytes(std::string const &s)
 {
@@ -470,6 +753,25 @@ std::string text_by_type(std::vector<std::string> const &t)
   throw bad_op{};
 }
 
+// narrow text <-> stream text of the character type Ch (wide: one character per code)
+template <typename Ch>
+std::basic_string<Ch> to_stream_text(std::string const &s)
+{
+  std::basic_string<Ch> r;
+  for (unsigned char c : s)
+    r += static_cast<Ch>(c);
+  return r;
+}
+
+template <typename Ch>
+std::string from_stream_text(std::basic_string<Ch> const &s)
+{
+  if constexpr (std::is_same_v<Ch, char>)
+    return s;
+  else
+    return narrow_codes(s);
+}
+
 template <typename E>
 struct en
 {
@@ -478,6 +780,7 @@ struct en
   {
     return o.has_value() ? std::to_string(static_cast<unsigned>(o.get_unsafe())) : std::string{"none"};
   }
+  template <typename Ch>
   static std::string line(unsigned const i)
   {
     if (i >= size)
@@ -487,24 +790,31 @@ struct en
     // names() must be the table of to_string
     if (std::string{fcppt::enum_::names<E>()[e]} != ts)
       throw std::logic_error{"names"};
-    std::ostringstream os{};
+    // the view returned by to_string handed straight back (it points into the storage the search compares against)
+    if (opt(fcppt::enum_::from_string<E>(fcppt::enum_::to_string(e))) != opt(fcppt::enum_::from_string<E>(ts)))
+      throw std::logic_error{"from_string on the view of to_string"};
+    std::basic_ostringstream<Ch> os{};
     fcppt::enum_::output(os, e);
-    std::string const out{os.str()};
-    std::istringstream is{out};
+    std::basic_string<Ch> const out{os.str()};
+    std::basic_istringstream<Ch> is{out};
     E r{static_cast<E>(size - 1U - i)};
     fcppt::enum_::input(is, r);
     bool const fail = is.fail();
-    return "ts=" + hex_of(ts) + " fs=" + opt(fcppt::enum_::from_string<E>(ts)) + " out=" + hex_of(out) +
-           " in=" + (fail ? std::string{"none"} : std::to_string(static_cast<unsigned>(r))) + " eof=" + b01(is.eof()) + " fail=" + b01(fail);
+    return "ts=" + hex_of(ts) + " fs=" + opt(fcppt::enum_::from_string<E>(ts)) + " out=" + hex_of(from_stream_text(out)) +
+           " in=" + (fail ? std::string{"none"} : std::to_string(static_cast<unsigned>(r))) + " var=" + std::to_string(static_cast<unsigned>(r)) +
+           " eof=" + b01(is.eof()) + " fail=" + b01(fail);
   }
-  static std::string ein(std::string const &text_)
+  template <typename Ch>
+  static std::string ein(std::basic_string<Ch> const &text_)
   {
-    std::istringstream is{text_};
+    std::basic_istringstream<Ch> is{text_};
     std::string r;
+    std::string var{"-"};
     for (int k = 0; k < 8; ++k)
     {
       E e{E::fcppt_maximum};
       fcppt::enum_::input(is, e);
+      var = std::to_string(static_cast<unsigned>(e));
       if (is.fail())
         break;
       if (!r.empty())
@@ -514,23 +824,44 @@ struct en
     bool const eof = is.eof();
     bool const fail = is.fail();
     is.clear();
-    return (r.empty() ? std::string{"-"} : r) + " eof=" + b01(eof) + " fail=" + b01(fail) + " rest=" + std::to_string(is.rdbuf()->in_avail());
+    return (r.empty() ? std::string{"-"} : r) + " var=" + var + " eof=" + b01(eof) + " fail=" + b01(fail) + " rest=" + std::to_string(is.rdbuf()->in_avail());
+  }
+  static std::string earr(std::string const &list)
+  {
+    std::vector<long long> const xs{vh::int_list(list)};
+    if (xs.size() != size)
+      throw bad_op{};
+    for (unsigned i = 0; i < size; ++i)
+      if (xs[i] < std::numeric_limits<int>::min() || xs[i] > std::numeric_limits<int>::max())
+        throw bad_op{};
+    fcppt::enum_::array<E, int> const arr{fcppt::enum_::array_init<fcppt::enum_::array<E, int>>(
+        [&xs]<E Index>(std::integral_constant<E, Index>) { return static_cast<int>(xs[static_cast<std::size_t>(Index)]); })};
+    std::ostringstream os{};
+    os << arr;
+    std::wostringstream wos{};
+    wos << arr;
+    if (narrow_codes(wos.str()) != os.str())
+      throw std::logic_error{"enum array output: wide and narrow differ"};
+    return hex_of(os.str());
   }
   static std::string handle(std::vector<std::string> const &t)
   {
     if (t[0] == "enum" && t.size() == 3)
-      return line(static_cast<unsigned>(parse_int<unsigned>(t[2])));
+      return line<char>(static_cast<unsigned>(parse_int<unsigned>(t[2])));
+    if (t[0] == "enumw" && t.size() == 3)
+      return line<wchar_t>(static_cast<unsigned>(parse_int<unsigned>(t[2])));
     if (t[0] == "efrom" && t.size() == 3)
     {
       // exact-size heap copy behind the string_view
-      std::string const s{parse_hex(t[2])};
-      std::unique_ptr<char[]> const buf{new char[s.size()]};
-      if (!s.empty())
-        std::memcpy(buf.get(), s.data(), s.size());
-      return opt(fcppt::enum_::from_string<E>(std::string_view{buf.get(), s.size()}));
+      exact<char> const s{parse_hex(t[2])};
+      return opt(fcppt::enum_::from_string<E>(s.view()));
     }
     if (t[0] == "ein" && t.size() == 3)
-      return ein(parse_hex(t[2]));
+      return ein<char>(parse_hex(t[2]));
+    if (t[0] == "einw" && t.size() == 3)
+      return ein<wchar_t>(parse_whex(t[2]));
+    if (t[0] == "earr" && t.size() == 3)
+      return earr(t[2]);
     throw bad_op{};
   }
 };
@@ -543,34 +874,61 @@ std::string enum_by_id(std::vector<std::string> const &t)
   if (t[1] == "2") return en<c15::e2>::handle(t);
   if (t[1] == "3") return en<c15::e3>::handle(t);
   if (t[1] == "4") return en<c15::e4>::handle(t);
+  if (t[1] == "5") return en<c15::e5>::handle(t);
   throw bad_op{};
 }
 
 template <typename V, typename T, unsigned N>
 struct vecio
 {
-  static std::string show(std::istringstream &is, V const &v)
+  // the N elements afterwards (77 = the initial content), the state, the unread characters
+  template <typename Ch>
+  static std::string show(std::basic_istringstream<Ch> &is, V const &v)
   {
     bool const eof = is.eof();
     bool const fail = is.fail();
     std::string r;
-    if (fail)
-      r = "fail";
-    else
-      for (unsigned i = 0; i < N; ++i)
-        r += (i ? "," : "") + show_int<T>(v.get_unsafe(i));
+    for (unsigned i = 0; i < N; ++i)
+      r += (i ? "," : "") + show_int<T>(v.get_unsafe(i));
     is.clear();
     return r + " eof=" + b01(eof) + " fail=" + b01(fail) + " rest=" + std::to_string(is.rdbuf()->in_avail());
   }
-  static std::string vin(std::string const &text_)
+  static V fresh()
   {
-    std::istringstream is{text_};
     V v{fcppt::no_init{}};
     for (unsigned i = 0; i < N; ++i)
       v.get_unsafe(i) = static_cast<T>(77);
+    return v;
+  }
+  template <typename Ch>
+  static std::string vin(std::string const &text_)
+  {
+    std::basic_istringstream<Ch> is{to_stream_text<Ch>(text_)};
+    V v{fresh()};
     is >> v;
     return show(is, v);
   }
+  static std::string vinm(std::string const &text_)
+  {
+    std::istringstream is{text_};
+    std::string r;
+    for (int k = 0; k < 4; ++k)
+    {
+      V v{fresh()};
+      is >> v;
+      bool const eof = is.eof();
+      bool const fail = is.fail();
+      if (!r.empty())
+        r += ';';
+      r += show(is, v); // clears the state
+      if (fail)
+        break;
+      if (eof)
+        is.setstate(std::ios_base::eofbit);
+    }
+    return r;
+  }
+  template <typename Ch>
   static std::string vec(std::string const &list)
   {
     std::vector<long long> const xs{vh::int_list(list)};
@@ -583,16 +941,24 @@ struct vecio
         throw bad_op{};
       v.get_unsafe(i) = static_cast<T>(xs[i]);
     }
-    std::ostringstream os{};
+    std::basic_ostringstream<Ch> os{};
     os << v;
-    std::string const out{os.str()};
-    return "out=" + hex_of(out) + " in=" + vin(out);
+    std::string const out{from_stream_text(os.str())};
+    return "out=" + hex_of(out) + " in=" + vin<Ch>(out);
   }
   static std::string handle(std::vector<std::string> const &t)
   {
     if (t[0] == "vec")
-      return vec(t[3]);
-    return vin(parse_hex(t[3]));
+      return vec<char>(t[3]);
+    if (t[0] == "vecw")
+      return vec<wchar_t>(t[3]);
+    if (t[0] == "vin")
+      return vin<char>(parse_hex(t[3]));
+    if (t[0] == "vinw")
+      return vin<wchar_t>(parse_hex(t[3]));
+    if (t[0] == "vinm")
+      return vinm(parse_hex(t[3]));
+    throw bad_op{};
   }
 };
 
@@ -618,60 +984,316 @@ std::string vec_by_size(std::vector<std::string> const &t)
   throw bad_op{};
 }
 
-// ------------------------------------------------------------------ UTF-8 part
-std::locale const &utf8()
+// matrix output: narrow and wide must agree
+template <typename T, unsigned R, unsigned C>
+std::string mat_out(std::vector<long long> const &xs)
 {
-  static std::locale const l{"C.utf8"};
+  fcppt::math::matrix::static_<T, R, C> m{fcppt::no_init{}};
+  for (unsigned r = 0; r < R; ++r)
+    for (unsigned c = 0; c < C; ++c)
+    {
+      long long const x{xs[r * C + c]};
+      if (x < static_cast<long long>(std::numeric_limits<T>::min()) || x > static_cast<long long>(std::numeric_limits<T>::max()))
+        throw bad_op{};
+      m.get_unsafe(r).get_unsafe(c) = static_cast<T>(x);
+    }
+  std::ostringstream os{};
+  os << m;
+  std::wostringstream wos{};
+  wos << m;
+  if (narrow_codes(wos.str()) != os.str())
+    throw std::logic_error{"matrix output: wide and narrow differ"};
+  return hex_of(os.str());
+}
+
+template <typename T>
+std::string mat_by_size(unsigned const r, unsigned const c, std::vector<long long> const &xs)
+{
+  switch (r * 10 + c)
+  {
+  case 11: return mat_out<T, 1, 1>(xs);
+  case 12: return mat_out<T, 1, 2>(xs);
+  case 13: return mat_out<T, 1, 3>(xs);
+  case 21: return mat_out<T, 2, 1>(xs);
+  case 22: return mat_out<T, 2, 2>(xs);
+  case 23: return mat_out<T, 2, 3>(xs);
+  case 31: return mat_out<T, 3, 1>(xs);
+  case 32: return mat_out<T, 3, 2>(xs);
+  case 33: return mat_out<T, 3, 3>(xs);
+  default: throw bad_op{};
+  }
+}
+
+std::string mat(std::vector<std::string> const &t)
+{
+  if (t.size() != 5)
+    throw bad_op{};
+  unsigned const r{parse_int<unsigned>(t[2])};
+  unsigned const c{parse_int<unsigned>(t[3])};
+  std::vector<long long> const xs{vh::int_list(t[4])};
+  if (r < 1 || r > 3 || c < 1 || c > 3 || xs.size() != r * c)
+    throw bad_op{};
+  if (t[1] == "i32") return mat_by_size<int>(r, c, xs);
+  if (t[1] == "i64") return mat_by_size<long>(r, c, xs);
+  if (t[1] == "u16") return mat_by_size<unsigned short>(r, c, xs);
+  if (t[1] == "u32") return mat_by_size<unsigned>(r, c, xs);
+  throw bad_op{};
+}
+
+// ---- extract_from_string / output_to_string for bool and strings
+template <typename Ch>
+std::string str_text(std::basic_string<Ch> const &s)
+{
+  if constexpr (std::is_same_v<Ch, char>)
+    return hex_of(s);
+  else
+    return whex_of(s);
+}
+
+template <typename Ch>
+std::string efb(std::string const &text_)
+{
+  fcppt::optional::object<bool> const r{fcppt::extract_from_string<bool>(to_stream_text<Ch>(text_))};
+  return r.has_value() ? "some " + b01(r.get_unsafe()) : std::string{"none"};
+}
+
+template <typename Ch>
+std::string rtb(bool const v)
+{
+  std::basic_string<Ch> const s{fcppt::output_to_string<std::basic_string<Ch>>(v)};
+  fcppt::optional::object<bool> const r{fcppt::extract_from_string<bool>(s)};
+  return "s=" + hex_of(from_stream_text(s)) + " r=" + (r.has_value() ? "some " + b01(r.get_unsafe()) : std::string{"none"});
+}
+
+template <typename Ch>
+std::string efstr(std::basic_string<Ch> const &text_, bool const round)
+{
+  std::basic_string<Ch> const s{round ? fcppt::output_to_string<std::basic_string<Ch>>(text_) : text_};
+  fcppt::optional::object<std::basic_string<Ch>> const r{fcppt::extract_from_string<std::basic_string<Ch>>(s)};
+  std::string const rs{r.has_value() ? "some " + str_text(r.get_unsafe()) : std::string{"none"}};
+  return round ? "s=" + str_text(s) + " r=" + rs : rs;
+}
+
+// ---- locales other than the classic one: is the locale argument really imbued?
+struct group3 : std::numpunct<char>
+{
+  char do_thousands_sep() const override { return ','; }
+  std::string do_grouping() const override { return "\3"; }
+};
+
+std::locale const &grouping_locale()
+{
+  static std::locale const l{std::locale::classic(), new group3{}};
   return l;
 }
 
-std::string whex_of(std::wstring const &s)
+struct x_is_space : std::ctype<char>
 {
-  if (s.empty())
-    return "-";
-  std::string bytes;
-  for (wchar_t const c : s)
+  static mask const *make_table()
   {
-    std::uint32_t const u{static_cast<std::uint32_t>(c)};
-    bytes += static_cast<char>(u >> 24);
-    bytes += static_cast<char>((u >> 16) & 0xFF);
-    bytes += static_cast<char>((u >> 8) & 0xFF);
-    bytes += static_cast<char>(u & 0xFF);
+    static std::vector<mask> t(classic_table(), classic_table() + table_size);
+    t['x'] |= space;
+    return t.data();
   }
-  return hex_of(bytes);
-}
-
-std::wstring parse_whex(std::string const &s)
-{
-  std::string const b{parse_hex(s)};
-  if (b.size() % 4 != 0)
-    throw bad_op{};
-  std::wstring r;
-  for (std::size_t i = 0; i < b.size(); i += 4)
-  {
-    std::uint32_t const u{(static_cast<std::uint32_t>(static_cast<unsigned char>(b[i])) << 24) |
-                          (static_cast<std::uint32_t>(static_cast<unsigned char>(b[i + 1])) << 16) |
-                          (static_cast<std::uint32_t>(static_cast<unsigned char>(b[i + 2])) << 8) |
-                          static_cast<std::uint32_t>(static_cast<unsigned char>(b[i + 3]))};
-    r += static_cast<wchar_t>(u);
-  }
-  return r;
-}
-
-// exact-size heap copies behind the views handed to fcppt
-template <typename Ch>
-struct exact
-{
-  explicit exact(std::basic_string<Ch> const &s) : size{s.size()}, buf{new Ch[s.size()]}
-  {
-    for (std::size_t i = 0; i < size; ++i)
-      buf[i] = s[i];
-  }
-  std::basic_string_view<Ch> view() const { return std::basic_string_view<Ch>{buf.get(), size}; }
-  std::size_t size;
-  std::unique_ptr<Ch[]> buf;
+  x_is_space() : std::ctype<char>{make_table()} {}
 };
 
+std::locale const &x_space_locale()
+{
+  static std::locale const l{std::locale::classic(), new x_is_space{}};
+  return l;
+}
+
+template <typename D>
+std::string otsl(D const v)
+{
+  std::string const s{fcppt::output_to_string_locale<std::string>(v, grouping_locale())};
+  if (s != fcppt::output_to_std_string_locale(v, grouping_locale()))
+    throw std::logic_error{"output_to_string_locale / output_to_std_string_locale differ"};
+  return "s=" + hex_of(s) + " r=" + text<D>::opt(fcppt::extract_from_string_locale<D>(s, grouping_locale()));
+}
+
+template <typename D>
+std::string efsx(std::string const &text_)
+{
+  return text<D>::opt(fcppt::extract_from_string_locale<D>(text_, x_space_locale()));
+}
+
+template <typename F>
+std::string with_num(std::string const &ty, F const &f)
+{
+  if (ty == "u16") return f(std::uint16_t{});
+  if (ty == "i16") return f(std::int16_t{});
+  if (ty == "u32") return f(std::uint32_t{});
+  if (ty == "i32") return f(std::int32_t{});
+  if (ty == "u64") return f(std::uint64_t{});
+  if (ty == "i64") return f(std::int64_t{});
+  throw bad_op{};
+}
+
+// ---- steps on ONE input stream through fcppt::io::get / peek / extract / expect
+template <typename Ch>
+std::string tst(std::basic_string<Ch> const &text_, std::string const &steps)
+{
+  std::basic_istringstream<Ch> is{text_};
+  std::string out;
+  for (std::string const &step : split(steps, ','))
+  {
+    std::string o;
+    auto const optc = [](fcppt::optional::object<Ch> const &r) {
+      if (!r.has_value())
+        return std::string{"none"};
+      if constexpr (std::is_same_v<Ch, char>)
+        return std::to_string(static_cast<unsigned>(static_cast<unsigned char>(r.get_unsafe())));
+      else
+        return std::to_string(static_cast<std::uint32_t>(r.get_unsafe()));
+    };
+    if (step == "g")
+      o = "g=" + optc(fcppt::io::get(is));
+    else if (step == "p")
+      o = "p=" + optc(fcppt::io::peek(is));
+    else if (step == "c")
+    {
+      is.clear();
+      o = "c";
+    }
+    else if (step == "xc")
+    {
+      fcppt::optional::object<Ch> const r{fcppt::io::extract<Ch>(is)};
+      if constexpr (std::is_same_v<Ch, char>)
+        o = "xc=" + (r.has_value() ? std::to_string(static_cast<int>(r.get_unsafe())) : std::string{"none"});
+      else
+        o = "xc=" + optc(r);
+    }
+    else if (step == "xs")
+    {
+      fcppt::optional::object<std::basic_string<Ch>> const r{fcppt::io::extract<std::basic_string<Ch>>(is)};
+      o = "xs=" + (r.has_value() ? "some " + str_text(r.get_unsafe()) : std::string{"none"});
+    }
+    else if (step == "xb")
+    {
+      fcppt::optional::object<bool> const r{fcppt::io::extract<bool>(is)};
+      o = "xb=" + (r.has_value() ? "some " + b01(r.get_unsafe()) : std::string{"none"});
+    }
+    else if (step == "n3" || step == "n5")
+    {
+      // fcppt::enum_::input in the middle of other traffic; the variable is printed whether or not it was assigned
+      auto const run = [&is]<typename E>(E init) {
+        E e{init};
+        fcppt::enum_::input(is, e);
+        return std::to_string(static_cast<unsigned>(e));
+      };
+      o = step + "=" + (step == "n3" ? run(c15::e3::b) : run(c15::e5::lead));
+    }
+    else if (step == "v1" || step == "v2")
+    {
+      auto const run = [&is]<unsigned N>(std::integral_constant<unsigned, N>) {
+        fcppt::math::vector::static_<int, N> v{fcppt::no_init{}};
+        for (unsigned i = 0; i < N; ++i)
+          v.get_unsafe(i) = 77;
+        is >> v;
+        std::string r;
+        for (unsigned i = 0; i < N; ++i)
+          r += (i ? "," : "") + std::to_string(v.get_unsafe(i));
+        return r;
+      };
+      o = step + "=" + (step == "v1" ? run(std::integral_constant<unsigned, 1>{}) : run(std::integral_constant<unsigned, 2>{}));
+    }
+    else if (step.size() > 1 && step[0] == 'x')
+      o = with_num(step.substr(1), [&](auto const z) {
+        using D = std::remove_cv_t<decltype(z)>;
+        fcppt::optional::object<D> const r{fcppt::io::extract<D>(is)};
+        return step + "=" + (r.has_value() ? show_int<D>(r.get_unsafe()) : std::string{"none"});
+      });
+    else if (step.size() == 3 && step[0] == 'e')
+    {
+      std::string const c{parse_hex(step.substr(1))};
+      fcppt::io::expect(is, static_cast<Ch>(static_cast<unsigned char>(c.at(0))));
+      o = "e";
+    }
+    else
+      throw bad_op{};
+    if (!out.empty())
+      out += ';';
+    out += o + " e" + b01(is.eof()) + "f" + b01(is.fail());
+  }
+  is.clear();
+  return out + "|rest=" + std::to_string(is.rdbuf()->in_avail());
+}
+
+// ---- float / double through decimal text: NOT modelled in Lean (printf %g / strtod are library code); judged by the
+// plugin's own exact-rational oracle in extra_checks
+template <typename F, typename I>
+std::string rtf(std::string const &op, std::string const &arg)
+{
+  auto const show = [](fcppt::optional::object<F> const &r) {
+    return r.has_value() ? std::to_string(static_cast<unsigned long long>(std::bit_cast<I>(r.get_unsafe()))) : std::string{"none"};
+  };
+  if (op == "eff")
+    return show(fcppt::extract_from_string<F>(parse_hex(arg)));
+  F const v{std::bit_cast<F>(parse_int<I>(arg))};
+  std::string const s{fcppt::output_to_std_string(v)};
+  if (narrow_codes(fcppt::output_to_std_wstring(v)) != s)
+    throw std::logic_error{"float output: wide and narrow differ"};
+  return "s=" + hex_of(s) + " r=" + show(fcppt::extract_from_string<F>(s));
+}
+
+std::string text_ext(std::vector<std::string> const &t)
+{
+  std::string const &op = t[0];
+  if ((op == "rtf" || op == "eff") && t.size() == 3)
+  {
+    if (t[1] == "f32") return rtf<float, std::uint32_t>(op, t[2]);
+    if (t[1] == "f64") return rtf<double, std::uint64_t>(op, t[2]);
+    throw bad_op{};
+  }
+  auto const wide = [&t]() {
+    if (t.at(1) == "N") return false;
+    if (t.at(1) == "W") return true;
+    throw bad_op{};
+  };
+  if (op == "efb" && t.size() == 3)
+    return wide() ? efb<wchar_t>(parse_hex(t[2])) : efb<char>(parse_hex(t[2]));
+  if (op == "rtb" && t.size() == 3)
+  {
+    if (t[2] != "0" && t[2] != "1")
+      throw bad_op{};
+    return wide() ? rtb<wchar_t>(t[2] == "1") : rtb<char>(t[2] == "1");
+  }
+  if ((op == "efstr" || op == "rtstr") && t.size() == 3)
+    return wide() ? efstr<wchar_t>(parse_whex(t[2]), op == "rtstr") : efstr<char>(parse_hex(t[2]), op == "rtstr");
+  if (op == "otsl" && t.size() == 3)
+    return with_num(t[1], [&t](auto const z) { return otsl(parse_int<std::remove_cv_t<decltype(z)>>(t[2])); });
+  if (op == "efsx" && t.size() == 3)
+    return with_num(t[1], [&t](auto const z) { return efsx<std::remove_cv_t<decltype(z)>>(parse_hex(t[2])); });
+  if (op == "tst" && t.size() == 4)
+    return wide() ? tst<wchar_t>(parse_whex(t[2]), t[3]) : tst<char>(parse_hex(t[2]), t[3]);
+  if (op == "strconv" && t.size() == 2)
+  {
+    exact<char> const e{parse_hex(t[1])};
+    fcppt::string const f{fcppt::from_std_string(e.view())};
+    if (f != fcppt::from_std_string_locale(e.view(), utf8()) || f != fcppt::from_std_string_locale(e.view(), std::locale::classic()))
+      throw std::logic_error{"from_std_string / from_std_string_locale differ"};
+    fcppt::optional_std_string const b{fcppt::to_std_string(e.view())};
+    fcppt::optional_std_string const b2{fcppt::to_std_string_locale(e.view(), utf8())};
+    if (b.has_value() != b2.has_value() || (b.has_value() && b.get_unsafe() != b2.get_unsafe()))
+      throw std::logic_error{"to_std_string / to_std_string_locale differ"};
+    // output_to_fcppt_string of a string is the string
+    if (fcppt::output_to_fcppt_string(f) != f)
+      throw std::logic_error{"output_to_fcppt_string"};
+    return "f=" + hex_of(f) + " t=" + (b.has_value() ? "some " + hex_of(b.get_unsafe()) : std::string{"none"});
+  }
+  if (op == "literals" && t.size() == 1)
+  {
+    std::string const n{FCPPT_STRING_LITERAL(char, "ab(")};
+    std::wstring const w{FCPPT_STRING_LITERAL(wchar_t, "ab(")};
+    return hex_of(n) + " " + whex_of(w) + " " + hex_of(std::string(1, FCPPT_CHAR_LITERAL(char, 'x'))) + " " +
+           whex_of(std::wstring(1, FCPPT_CHAR_LITERAL(wchar_t, 'x')));
+  }
+  throw bad_op{};
+}
+
+// ------------------------------------------------------------------ UTF-8 part
 using facet_type = std::codecvt<wchar_t, char, std::mbstate_t>;
 
 char const *res_name(std::codecvt_base::result const r)
@@ -802,9 +1424,177 @@ std::string nwenv_line(std::wstring const &ws)
   return "n=" + show_narrow(n) + " w=" + w;
 }
 
+// ---- a scripted facet: the same step function as Model/C15/Toy.lean, installed in a locale and handed to the real loop
+struct toy_params
+{
+  bool stash, ok_full, ok_left, null_to;
+  int max_len;
+  std::size_t chunk;
+};
+
+struct toy_facet : std::codecvt<wchar_t, char, std::mbstate_t>
+{
+  explicit toy_facet(toy_params const &_p) : std::codecvt<wchar_t, char, std::mbstate_t>(std::size_t{0}), p{_p} {}
+  toy_params p;
+
+  static std::uint32_t unit(wchar_t const c) { return static_cast<std::uint32_t>(c); }
+  static std::uint32_t unit(char const c) { return static_cast<unsigned char>(c); }
+
+  template <typename In, typename Out>
+  result go(std::mbstate_t &st, In const *from, In const *const from_end, In const *&from_next, Out *to, Out *const to_end, Out *&to_next) const
+  {
+    std::size_t cnt = 0;
+    Out *const to_begin{to};
+    // null_to: a call that produced no output leaves to_next as it was handed in (the loop passes a null pointer)
+    auto const done = [&](result const r) {
+      from_next = from;
+      if (!(p.null_to && to == to_begin))
+        to_next = to;
+      return r;
+    };
+    while (from != from_end)
+    {
+      if (p.chunk != 0 && cnt >= p.chunk)
+        return done(p.ok_left ? ok : partial);
+      std::size_t const room{static_cast<std::size_t>(to_end - to)};
+      result const full{p.ok_full && room == 0 && cnt == 0 ? ok : partial};
+      std::uint32_t const c{unit(*from)};
+      if (st.__count != 0)
+      {
+        if (room == 0)
+          return done(full);
+        *to++ = static_cast<Out>(static_cast<unsigned char>((st.__value.__wch + c) % 256U));
+        st.__count = 0;
+        st.__value.__wch = 0;
+        ++from;
+        ++cnt;
+        continue;
+      }
+      std::uint32_t const b{c % 256U};
+      if (b == 0xEE)
+        return done(error);
+      if (b == 0xFD)
+        return done(noconv);
+      if (b % 16U == 15U)
+      {
+        if (from + 1 == from_end && !p.stash)
+          return done(partial);
+        st.__count = 1;
+        st.__value.__wch = b;
+        ++from;
+        ++cnt;
+        continue;
+      }
+      std::size_t const need{1U + b % 3U};
+      if (need > room)
+        return done(full);
+      for (std::size_t k = 0; k < need; ++k)
+        *to++ = static_cast<Out>(static_cast<unsigned char>((b + 1U) % 256U));
+      ++from;
+      ++cnt;
+    }
+    return done(ok);
+  }
+
+  result do_out(std::mbstate_t &st, wchar_t const *from, wchar_t const *from_end, wchar_t const *&from_next, char *to, char *to_end, char *&to_next) const override
+  {
+    return this->go(st, from, from_end, from_next, to, to_end, to_next);
+  }
+  result do_in(std::mbstate_t &st, char const *from, char const *from_end, char const *&from_next, wchar_t *to, wchar_t *to_end, wchar_t *&to_next) const override
+  {
+    return this->go(st, from, from_end, from_next, to, to_end, to_next);
+  }
+  result do_unshift(std::mbstate_t &, char *to, char *, char *&to_next) const override
+  {
+    to_next = to;
+    return noconv;
+  }
+  int do_encoding() const noexcept override { return 0; }
+  bool do_always_noconv() const noexcept override { return false; }
+  int do_length(std::mbstate_t &, char const *, char const *, std::size_t) const override { return 0; }
+  int do_max_length() const noexcept override { return p.max_len; }
+};
+
+struct toy_setup
+{
+  toy_setup(std::string const &d, std::string const &f, std::string const &m, std::string const &c)
+      : wide{d == "out"}, loc{std::locale::classic()}
+  {
+    if (d != "out" && d != "in")
+      throw bad_op{};
+    unsigned long long const fl{parse_int<unsigned long long>(f)};
+    unsigned long long const ml{parse_int<unsigned long long>(m)};
+    unsigned long long const ch{parse_int<unsigned long long>(c)};
+    if (fl >= 16 || ml > 8 || ch > 8)
+      throw bad_op{};
+    loc = std::locale{std::locale::classic(), new toy_facet{toy_params{(fl & 1U) != 0, (fl & 2U) != 0, (fl & 4U) != 0, (fl & 8U) != 0,
+                                                                      static_cast<int>(ml), static_cast<std::size_t>(ch)}}};
+  }
+  // narrow_locale for `out`, widen_locale for `in`, through exact-size copies
+  std::string run_out(std::wstring const &in) const
+  {
+    exact<wchar_t> const e{in};
+    fcppt::optional_std_string const r{fcppt::narrow_locale(e.view(), loc)};
+    return r.has_value() ? "some " + hex_of(r.get_unsafe()) : std::string{"none"};
+  }
+  std::string run_in(std::string const &in) const
+  {
+    exact<char> const e{in};
+    try
+    {
+      return "some " + whex_of(fcppt::widen_locale(e.view(), loc));
+    }
+    catch (std::runtime_error const &)
+    {
+      return "none";
+    }
+  }
+  bool wide;
+  std::locale loc;
+};
+
+std::string toys(toy_setup const &ts, unsigned const max_len)
+{
+  static unsigned char const alphabet[6] = {0x01, 0x02, 0x03, 0x0F, 0xEE, 0xFD};
+  std::uint64_t h = vh::fnv_init;
+  for (unsigned len = 0; len <= max_len; ++len)
+  {
+    unsigned long long total = 1;
+    for (unsigned k = 0; k < len; ++k)
+      total *= 6;
+    for (unsigned long long i = 0; i < total; ++i)
+    {
+      std::string n(len, '\0');
+      std::wstring w(len, L'\0');
+      unsigned long long x = i;
+      for (unsigned k = len; k-- > 0;)
+      {
+        n[k] = static_cast<char>(alphabet[x % 6]);
+        w[k] = static_cast<wchar_t>(alphabet[x % 6]);
+        x /= 6;
+      }
+      h = vh::fnv(h, ts.wide ? ts.run_out(w) : ts.run_in(n));
+    }
+  }
+  return "D " + vh::hex64(h);
+}
+
 std::string utf_dispatch(std::vector<std::string> const &t)
 {
   std::string const &op = t[0];
+  if (op == "toy" && t.size() == 6)
+  {
+    toy_setup const ts{t[1], t[2], t[3], t[4]};
+    return ts.wide ? ts.run_out(parse_whex(t[5])) : ts.run_in(parse_hex(t[5]));
+  }
+  if (op == "toys" && t.size() == 6)
+  {
+    toy_setup const ts{t[1], t[2], t[3], t[4]};
+    unsigned long long const l{parse_int<unsigned long long>(t[5])};
+    if (l > 6)
+      throw bad_op{};
+    return toys(ts, static_cast<unsigned>(l));
+  }
   if (op == "nwenv" && t.size() == 2)
     return nwenv_line(parse_whex(t[1]));
   if (op == "facet" && t.size() == 1)
@@ -829,6 +1619,33 @@ std::string utf_dispatch(std::vector<std::string> const &t)
     return do_widen(parse_hex(t[1]));
   if (op == "nw" && t.size() == 2)
     return nw_line(parse_whex(t[1]));
+  if (op == "nwlong" && t.size() == 3)
+  {
+    // a long string (pattern repeated): many buffer growth steps; only lengths and a digest are printed
+    std::wstring const pat{parse_whex(t[1])};
+    unsigned long long const n{parse_int<unsigned long long>(t[2])};
+    if (pat.empty() || n == 0 || pat.size() * n > 200000)
+      throw bad_op{};
+    std::wstring ws;
+    for (unsigned long long i = 0; i < n; ++i)
+      ws += pat;
+    fcppt::optional_std_string const nr{do_narrow(ws)};
+    if (!nr.has_value())
+      return "n=none";
+    std::string const &bytes{nr.get_unsafe()};
+    std::string r{"n=some len=" + std::to_string(bytes.size()) + " h=" + vh::hex64(vh::fnv(vh::fnv_init, hex_of(bytes)))};
+    exact<char> const e{bytes};
+    try
+    {
+      std::wstring const back{fcppt::widen_locale(e.view(), utf8())};
+      r += " w=some len=" + std::to_string(back.size()) + " eq=" + b01(back == ws);
+    }
+    catch (std::runtime_error const &)
+    {
+      r += " w=exc";
+    }
+    return r;
+  }
   if (op == "nws" && t.size() == 3)
   {
     unsigned long long const lo{parse_int<unsigned long long>(t[1])};
@@ -850,11 +1667,17 @@ std::string dispatch(std::vector<std::string> const &t)
   std::string const &op = t[0];
   if (op == "ots" || op == "efs" || op == "rtd" || op == "rtds")
     return text_by_type(t);
-  if (op == "enum" || op == "efrom" || op == "ein")
+  if (op == "enum" || op == "efrom" || op == "ein" || op == "enumw" || op == "einw" || op == "earr")
     return enum_by_id(t);
-  if (op == "vec" || op == "vin")
+  if (op == "vec" || op == "vin" || op == "vecw" || op == "vinw" || op == "vinm")
     return vec_by_size(t);
-  if (op == "facet" || op == "cvt" || op == "narrow" || op == "widen" || op == "nw" || op == "nws" || op == "nwenv")
+  if (op == "mat")
+    return mat(t);
+  if (op == "efb" || op == "rtb" || op == "efstr" || op == "rtstr" || op == "otsl" || op == "efsx" || op == "tst" || op == "strconv" || op == "literals" || op == "rtf" || op == "eff")
+    return text_ext(t);
+  if (op == "bst" && t.size() == 2)
+    return bst(t[1]);
+  if (op == "toy" || op == "toys" || op == "facet" || op == "cvt" || op == "narrow" || op == "widen" || op == "nw" || op == "nws" || op == "nwenv" || op == "nwlong")
     return utf_dispatch(t);
   if (op == "native" && t.size() == 1)
     return std::endian::native == std::endian::little ? "little" : std::endian::native == std::endian::big ? "big" : "mixed";
